@@ -39,8 +39,8 @@ Structural == Evt.op \in {"addrow", "addcol", "delrow", "delcol"}
 BareAct ==
   CASE Evt.op = "merge"  -> Merge(Evt.rs)
     [] Evt.op = "write"  -> Write(Evt.r, Evt.c, Evt.v)
-    [] Evt.op = "addrow" -> AddRow(Evt.n, Evt.at)
-    [] Evt.op = "addcol" -> AddCol(Evt.n, Evt.at)
+    [] Evt.op = "addrow" -> AddRow(Evt.n, Evt.at, Evt.d)
+    [] Evt.op = "addcol" -> AddCol(Evt.n, Evt.at, Evt.d)
     [] Evt.op = "delrow" -> DelRow(Evt.n, Evt.at)
     [] Evt.op = "delcol" -> DelCol(Evt.n, Evt.at)
     [] Evt.op = "save"   -> Save
@@ -50,7 +50,8 @@ BareAct ==
 \* (Level B - they moved with their cells - is reported as DRIFT when it differs)
 StructStep == /\ Structural
               /\ \E a \in {Evt.at} :
-                   /\ grid' = (CASE Evt.op = "addrow" -> InsRows(grid, a, Evt.n) [] Evt.op = "addcol" -> InsCols(grid, a, Evt.n)
+                   /\ grid' = (CASE Evt.op = "addrow" -> Blank(InsRowsD(grid, a, Evt.n, Evt.d), ToSet(Evt.post.ranges))
+                                 [] Evt.op = "addcol" -> Blank(InsColsD(grid, a, Evt.n, Evt.d), ToSet(Evt.post.ranges))
                                  [] Evt.op = "delrow" -> DelRows(grid, a, Evt.n) [] Evt.op = "delcol" -> DelCols(grid, a, Evt.n))
               /\ Consistent(Evt.post)
               /\ merges' = ToSet(Evt.post.ranges)
